@@ -458,11 +458,13 @@ fn helper_case(k: usize) -> Option<String> {
 }
 
 // ---------------------------------------------------------------- C04: a member is optional iff Option<T> or bare serde(default)
-const OPT_BASES: [&str; 6] = ["u32", "String", "Vec<u32>", "Other", "T", "HashMap<String, u32>"];
+const OPT_BASES: [&str; 7] = ["u32", "String", "Vec<u32>", "Other", "T", "HashMap<String, u32>", "OffsetDateTime"];
 /// (type shape, Option depth as the property reads it): smart pointers are transparent
 const OPT_SHAPES: [(&str, usize); 6] = [("X", 0), ("Option<X>", 1), ("Option<Option<X>>", 2), ("Box<Option<X>>", 1), ("Option<Box<X>>", 1), ("Option<Vec<Option<X>>>", 1)];
 /// (attribute text, does it make the member optional?, the wire name it sets)
-const OPT_ATTRS: [(&str, bool, Option<&str>); 7] = [
+const OPT_OVERRIDE: &str = "#[typeshare(typescript(type = \"Ovr\"), kotlin(type = \"Ovr\"), swift(type = \"Ovr\"), scala(type = \"Ovr\"), go(type = \"Ovr\"))]";
+const OPT_ATTRS: [(&str, bool, Option<&str>); 9] = [
+    (OPT_OVERRIDE, false, None), ("#[serde(default)] #[typeshare(typescript(type = \"Ovr\"), kotlin(type = \"Ovr\"), swift(type = \"Ovr\"), scala(type = \"Ovr\"), go(type = \"Ovr\"))]", true, None),
     ("", false, None), ("#[serde(default)]", true, None), ("#[serde(default, rename = \"renA\")]", true, Some("renA")), ("#[serde(rename = \"renB\", default)]", true, Some("renB")),
     ("#[serde(default = \"some_fn\")]", false, None), ("#[serde(skip_serializing_if = \"Option::is_none\")]", false, None), ("#[serde(rename = \"renC\")] #[serde(default)]", true, Some("renC")),
 ];
@@ -495,6 +497,8 @@ fn opt_case(cases: &[(usize, usize, usize)]) -> Option<String> {
     use typeshare_core::rust_types::{RustType, SpecialRustType};
     let src = opt_program(cases);
     for lang in TYPE_LANGS {
+        // OffsetDateTime is refused by Kotlin / Swift / Scala (outside the property's alphabet): those members go to the other three only
+        if cases.iter().any(|c| c.0 == 6) && matches!(lang, "kotlin" | "swift" | "scala") { continue; }
         let d = match panic::catch_unwind(|| parse_named(&src, "f.rs")) { Ok(Some(d)) => d, Ok(None) => return Some("no parsed data".into()), Err(_) => return Some("the parser panicked".into()) };
         if !d.errors.is_empty() { return Some(format!("parse errors: {:?}", d.errors.first().map(|e| e.error.to_string()))); }
         // what the parser recorded for the struct's fields
@@ -515,15 +519,27 @@ fn opt_case(cases: &[(usize, usize, usize)]) -> Option<String> {
             if got_depth.min(2) != depth { return Some(format!("field of type `{}` is recorded with Option depth {} (expected {})", src_ty, got_depth, depth)); }
             let name = opt_name(i);
             let key = OPT_ATTRS[*at].2.map(|k| k.to_string()).unwrap_or(name.clone());
-            let t = { let mut l2: Box<dyn Language> = match lang { "typescript" => Box::new(TypeScript::default()), "kotlin" => Box::new(Kotlin::default()), "swift" => Box::new(Swift::default()), "scala" => Box::new(Scala::default()), "go" => Box::new(Go::default()), _ => Box::new(Python::default()) };
+            let overridden = OPT_ATTRS[*at].0.contains("type = \"Ovr\"") && lang != "python";
+            let t = if overridden { "Ovr".to_string() } else { let mut l2: Box<dyn Language> = match lang { "typescript" => Box::new(TypeScript::default()), "kotlin" => Box::new(Kotlin::default()), "swift" => Box::new(Swift::default()), "scala" => Box::new(Scala::default()), "go" => Box::new(Go::default()), _ => Box::new(Python::default()) };
                       match l2.format_type(&f.ty, &["T".to_string()]) { Ok(t) => t, Err(_) => continue } };
+            // TypeScript's `| null` for Option<Option<T>> is part of the member, an override replaces only the type text
             // Scala: the recorded finding kf-c04-scala-default (non-Option member with serde(default) is written `T = _`) is reported separately
             if lang == "scala" && dflt && depth == 0 { continue; }
+            // Python wraps a bare `datetime` / `bytes` member in Annotated[.., validators] (custom (de)serialisers): not part of this oracle;
+            // Optional[datetime] has no such wrapper and is checked
+            if lang == "python" && (t == "datetime" || t == "bytes") { continue; }
             let go_name = if lang == "go" { let mut c = name.chars(); format!("\t{}{}", c.next().unwrap().to_uppercase(), c.as_str()) } else { String::new() };
             for want in opt_member(lang, &name, &key, &t, depth >= 1, depth >= 2, dflt) {
                 let want = if lang == "go" { format!("{}{}", go_name, want) } else { want };
                 let n = out.matches(&want).count();
                 // the struct and the struct variant's helper type both carry the member
+                if lang == "swift" {
+                    // the initialiser repeats every member: same type text, same marker
+                    let p = format!("{}: {}{}", key, t, if dflt && depth == 0 { "?" } else { "" });
+                    let inits: Vec<&str> = out.lines().filter(|l| l.trim_start().starts_with("public init(")).collect();
+                    let hits = inits.iter().filter(|l| l.contains(&format!("({}, ", p)) || l.contains(&format!(", {}, ", p)) || l.contains(&format!(", {})", p)) || l.contains(&format!("({})", p))).count();
+                    if hits < 2 { return Some(format!("swift: the initialiser parameter of member `{} {}: {}` must be `{}` (the same type text and marker as the stored property) - found in {} initialiser(s) instead of 2", OPT_ATTRS[*at].0, name, src_ty, p, hits)); }
+                }
                 if n < 2 { return Some(format!("{}: member `{} {}: {}` must be written `{}` ({} when Option<T> or bare serde(default), type text unchanged) - found {} time(s) instead of 2", lang, OPT_ATTRS[*at].0, name, src_ty, want.trim(), if depth >= 1 || dflt { "optional" } else { "required" }, n)); }
             }
         }
@@ -1010,11 +1026,11 @@ fn main() {
             }
             // all cases in batches (one program per batch), a failing batch is re-run member by member for the witness
             let mut n = 0;
-            for (b, batch) in all.chunks(42).enumerate() {
+            for (b, batch) in all.chunks(54).enumerate() {
                 n += batch.len();
-                if opt_case(batch).is_some() { for (j, c) in batch.iter().enumerate() { if let Some(m) = opt_case(&[*c]) { report(b * 42 + j, m); } } if let Some(m) = opt_case(batch) { report(b * 42, m); } }
+                if opt_case(batch).is_some() { for (j, c) in batch.iter().enumerate() { if let Some(m) = opt_case(&[*c]) { report(b * 54 + j, m); } } if let Some(m) = opt_case(batch) { report(b * 54, m); } }
             }
-            println!("no failing input among {} members (6 base types x 6 Option / smart-pointer shapes x 7 attribute forms) x struct field and struct-variant field x 6 languages", n);
+            println!("no failing input among {} members (7 base types x 6 Option / smart-pointer shapes x 9 attribute forms incl. per-language type overrides) x struct field and struct-variant field x 6 languages", n);
             std::process::exit(0);
         }
         Some("wire-search") | Some("wire-check") => {
